@@ -14,7 +14,7 @@
 
     replyspec := none | nonjson=<i> | obj:<err>:<res>
     err       := absent | null | other=<i> | dict=<code>
-    code      := absent | int=<n> | dec=<number text> | true | false | null | str
+    code      := absent | empty | int=<n> | dec=<number text> | true | false | null | str
     res       := absent | v=<text>
 -/
 import Driver.Util
@@ -27,7 +27,7 @@ open BtcVerif Driver
 open BtcVerif.Model.Rpc
 
 def parseCode? (s : String) : Option CodeVal :=
-  if s = "absent" then some .absent
+  if s = "absent" ∨ s = "empty" then some .absent          -- "empty": the error object is `{}`
   else if s = "true" then some (.bool true)
   else if s = "false" then some (.bool false)
   else if s = "null" then some .null
